@@ -27,7 +27,8 @@ func caseGen() *rapid.Generator[Case] {
 	})
 	// texts shared by the tables of different goroutines (state keyed by cell text would collide), as plain
 	// strings in one table and as items declaring another width or height in the next
-	shared := []string{"\u2713", "\u00e9t\u00e9", "\u6f22\u5b57", "ok", "a\nb", "\u2713 done", "n/a", "\U0001f469\u200d\U0001f4bb"}
+	shared := []string{"\u2713", "\u00e9t\u00e9", "\u6f22\u5b57", "ok", "a\nb", "\u2713 done", "n/a", "\U0001f469\u200d\U0001f4bb",
+		"say \"hi\"", "a\"b", "<b>&amp;</b>", "x|y", "back\\slash", "it's"} // texts every format has to escape somehow
 	item := rapid.Custom(func(t *rapid.T) gen.Item {
 		switch rapid.IntRange(0, 9).Draw(t, "shared") {
 		case 0, 1, 2:
@@ -42,7 +43,7 @@ func caseGen() *rapid.Generator[Case] {
 		if rapid.IntRange(0, 4).Draw(t, "mixed") == 0 {
 			return gen.NoAddressText(gen.AnyItem(gen.TokWidth, 1).Draw(t, "any"))
 		}
-		return gen.S(gen.StringOf(append([]string{"wide wide wide wide", "a\nb"}, gen.TokWidth...), 0, 4).Draw(t, "s"))
+		return gen.S(gen.StringOf(append([]string{"wide wide wide wide", "a\nb", "\"", "\"", "<", "&", "|", "\\", "'"}, gen.TokWidth...), 0, 4).Draw(t, "s"))
 	})
 	sg := gen.ScriptGen(gen.ScriptOpts{Item: item, HdrItem: key, MinOps: 1, MaxOps: 7, MaxCells: 3, HdrCells: [2]int{2, 4}, ForceHdr: true,
 		Creators: []string{"core", "core", "csv", "html", "texttable", "markdown", "json", "auto:utf8-light"}})
